@@ -49,3 +49,64 @@ def codec_design(rep, label, expect_ok=True, **kw):
     if expect_ok and not r.ok:
         raise common.MachineryError("design-level model %s violates %s on its own" % (label, r.violated))
     return r
+
+
+def apalache(module_path, init, inv, length, timeout=900):
+    """Runs apalache-mc check; returns 'NoError', 'Error' (a violation was found) or 'unavailable:<why>'."""
+    import shutil
+    import subprocess
+    if shutil.which("apalache-mc") is None:
+        return "unavailable:apalache-mc not on PATH"
+    out = tempfile.mkdtemp(prefix="bpverif-apa-", dir=os.environ.get("TMPDIR", "/tmp"))
+    try:
+        p = subprocess.run(["apalache-mc", "check", "--init=" + init, "--inv=" + inv, "--length=%d" % length,
+                            "--out-dir=" + out, os.path.basename(module_path)],
+                           cwd=os.path.dirname(module_path), capture_output=True, text=True, timeout=timeout)
+        txt = p.stdout + p.stderr
+        if "The outcome is: NoError" in txt:
+            return "NoError"
+        if "The outcome is: Error" in txt:
+            return "Error"
+        last = [l for l in txt.splitlines() if l.strip()][-1:] or [""]
+        return "unavailable:" + last[0][:160]
+    except subprocess.TimeoutExpired:
+        return "unavailable:timeout"
+    except OSError as e:
+        return "unavailable:%s" % e
+    finally:
+        shutil.rmtree(out, ignore_errors=True)
+
+
+def copy_loop_unbounded(rep):
+    """The chunk arithmetic of every runtime's bit copier, for EVERY width and stream position: CopyLoop.tla's
+    inductive invariant discharged by Apalache (no bound), a negative control, and the TLC bridge that ties its
+    formula to Wire!NCopy.  Apalache being unavailable is recorded, not a verdict (the bounded TLC models stand)."""
+    r = run_cfg("MC_CopyLoop", open(os.path.join(common.SPEC, "MC_CopyLoop.cfg")).read(), timeout=600, workers=2)
+    tlc.machinery_check(r, "MC_CopyLoop")
+    if not r.ok:
+        raise common.MachineryError("MC_CopyLoop: CopyLoop's chunk formula is not Wire!NCopy")
+    rep.add_tlc(r, "design:CopyLoop!ChunkOf = Wire!NCopy on 0..40 x 1..70 (bridge to the Apalache proof)")
+    mod = os.path.join(common.SPEC, "CopyLoop.tla")
+    res = {"initiation (Init => IndInv)": apalache(mod, "Init", "IndInv", 0),
+           "consecution and ChunkShape (IndInv /\\ Next => IndInv' /\\ ChunkShape)": apalache(mod, "IndInit", "Safety", 1),
+           "progress (action invariant j' > j, j' <= n)": apalache(mod, "IndInit", "StepProgress", 1)}
+    # negative control: one more bit of room in the stream byte must be refuted
+    bad_dir = tempfile.mkdtemp(prefix="bpverif-apabad-", dir=os.environ.get("TMPDIR", "/tmp"))
+    try:
+        text = open(mod).read().replace("8 - (ii % 8), 8 - (jj % 8))", "9 - (ii % 8), 8 - (jj % 8))")
+        text = text.replace("MODULE CopyLoop", "MODULE CopyLoopBad")
+        with open(os.path.join(bad_dir, "CopyLoopBad.tla"), "w") as f:
+            f.write(text)
+        neg = apalache(os.path.join(bad_dir, "CopyLoopBad.tla"), "IndInit", "Safety", 1)
+    finally:
+        import shutil
+        shutil.rmtree(bad_dir, ignore_errors=True)
+    info = {"module": "CopyLoop.tla", "tool": "apalache-mc 0.58 (SMT, unbounded integers)", "obligations": res,
+            "negative_control (9 - i mod 8)": neg}
+    if any(v == "Error" for v in res.values()):
+        raise common.MachineryError("CopyLoop: Apalache refutes an obligation: %s" % res)
+    if all(v == "NoError" for v in res.values()) and neg == "NoError":
+        raise common.MachineryError("CopyLoop: the negative control was not refuted")
+    info["holds_for_every_width_and_offset"] = all(v == "NoError" for v in res.values()) and neg == "Error"
+    rep.cov["unbounded_chunk_arithmetic"] = info
+    return info
